@@ -152,7 +152,13 @@ func (g *pkgGen) T(d int) *Node {
 		g.valN++
 		f := PickStr(g.r, funNames)
 		ref := g.ref()
-		return L(A("defun"), A(f), L(), Call("list", I(1000+g.valN), Call("sim:cur-pkg"), Call("ignore-errors", ref)))
+		body := Call("list", I(1000+g.valN), Call("sim:cur-pkg"), Call("ignore-errors", ref))
+		if g.r.Chance(1, 3) {
+			// an earlier body form that can fail: the caller's package must be back afterwards
+			g.fpN++
+			return L(A("defun"), A(f), L(), Call("sim:fp", I(g.fpN), I(0)), body)
+		}
+		return L(A("defun"), A(f), L(), body)
 	case 12:
 		return L(g.callee())
 	case 13:
@@ -195,6 +201,7 @@ func (pkgEngine) Gen(r *Rand, tier string) any {
 	c := &PkgCase{}
 	c.Knobs.TRO = PickStr(r, []string{"", "", "debugger", "profiler"})
 	g := &pkgGen{r: r}
+	var scenarioFaults []FaultSpec
 	nops := r.Range(2, 7)
 	for i := 0; i < nops; i++ {
 		op := PkgOp{Entry: PickStr(r, []string{"load", "load", "eval"})}
@@ -203,10 +210,17 @@ func (pkgEngine) Gen(r *Rand, tier string) any {
 			// then redefine the source (the import is a snapshot)
 			src, dst := PickStr(r, pkgNames), PickStr(r, pkgNames)
 			n1, n2, fn := g.name(), g.name(), PickStr(r, funNames)
+			fnDef := L(A("defun"), A(fn), L(), Call("list", g.val(), Call("sim:cur-pkg"), Call("ignore-errors", A(n1))))
+			if r.Chance(1, 2) {
+				// the function fails in a form that is not its last, on its first or second call
+				g.fpN++
+				fnDef = L(A("defun"), A(fn), L(), Call("sim:fp", I(g.fpN), I(0)), Call("list", g.val(), Call("sim:cur-pkg"), Call("ignore-errors", A(n1))))
+				scenarioFaults = append(scenarioFaults, FaultSpec{FP: g.fpN, Hit: r.Range(1, 2), Kind: PickStr(r, []string{"error", "error", "panic"}), Cond: "sim-fault"})
+			}
 			steps := []*Node{
 				Call("in-package", QS(src)),
 				Call("set", QS(n1), g.val()),
-				L(A("defun"), A(fn), L(), Call("list", g.val(), Call("sim:cur-pkg"), Call("ignore-errors", A(n1)))),
+				fnDef,
 				Call("export", QS(n1), QS(fn)),
 				Call("export", QS(n2)), // possibly unbound: a partial import
 				Call("in-package", QS(dst)),
@@ -216,6 +230,13 @@ func (pkgEngine) Gen(r *Rand, tier string) any {
 				L(A(fn)),
 				L(A(src + ":" + fn)),
 				Call("list", A(n1), A(src+":"+n1)),
+				// change the exported binding in place, then import again (and into a new package)
+				Call("progn", Call("in-package", QS(src)), Call("set!", A(n1), g.val()), Call("in-package", QS(dst))),
+				Call("use-package", QS(src)),
+				Call("list", A(n1), A(src+":"+n1)),
+				Call("progn", Call("in-package", QS(PickStr(r, pkgNames))), Call("use-package", QS(src)), Call("list", Call("sim:cur-pkg"), Call("ignore-errors", A(n1)))),
+				Call("ignore-errors", L(A(src+":"+fn))),
+				Call("list", Call("sim:cur-pkg"), Call("ignore-errors", A(n1))),
 			}
 			// drop / reorder a few steps and put fault points on some
 			for _, st := range steps {
@@ -253,6 +274,7 @@ func (pkgEngine) Gen(r *Rand, tier string) any {
 			c.Faults = append(c.Faults, f)
 		}
 	}
+	c.Faults = append(c.Faults, scenarioFaults...)
 	return c
 }
 
@@ -697,7 +719,7 @@ func pkgValid(n *Node) bool {
 		}
 		return true
 	case "defun", "defmacro":
-		return len(args) == 3 && !args[0].IsL && args[1].IsL && len(args[1].List) == 0 && pkgValid(args[2])
+		return len(args) >= 3 && !args[0].IsL && args[1].IsL && len(args[1].List) == 0 && all(args[2:])
 	case "load-string":
 		if len(args) != 1 || args[0].IsL {
 			return false
